@@ -776,3 +776,16 @@ def _premise_apply(cls, ty, start):
 
 _premise_apply("StartOverhangPremise", SP, True)
 _premise_apply("EndOverhangPremise", EP, False)
+
+
+@contract(f"{U}.OverhangPremise.makes_worse", properties=("C18", "C01"))
+class _:
+    # the negation of `improves` (same reads, same preconditions): in particular the only row of a result is never
+    # offered for removal - removing it always "makes worse" - which is what keeps make_fixes from emptying a result
+    # through a premise
+    params = {"self": TRef("OverhangPremise"), "err_length": INT}
+    result = BOOL
+    requires = staticmethod(lambda o: [("wf", wf(o.self.scaffold)), ("nonempty", o.self.scaffold.rows.len > 0),
+                                       ("a-start-or-an-end-premise", z3.Or(o.self.isinstance("StartOverhangPremise"), o.self.isinstance("EndOverhangPremise")))])
+    modifies = staticmethod(lambda o: [("alloc",), ("fresh-lists", ROW)])
+    ensures = staticmethod(lambda o, n, res: [("removing-the-only-row-makes-worse", z3.Implies(o.self.scaffold.rows.len == 1, res))])
